@@ -25,7 +25,7 @@ def aggFn : String → Option (List BSet → BSet)
   | _ => none
 
 def aggLine (r : BSet) (ops : List BSet) : String :=
-  " ".intercalate (digest r :: ops.map digest) ++ " slice=ok"
+  " ".intercalate (digest r :: ops.map digest) ++ " slice=ok valid=ok"
 
 def workers? (s : String) : Option Nat :=
   match s.toNat? with
